@@ -74,7 +74,7 @@ type c18NodeSpec struct {
 	HasRaw          bool  // raw-allocatable annotation present (then thresholds refer to it)
 	RawCPU, RawMem  int64
 	RawPods         int64
-	Kind            string // hot | cold | free: which usage level the generator prefers for this node
+	Kind            string // hot | cold | prodhot | free: which usage level the generator prefers for this node
 	lvl             int    // generator state only
 	capCPU, capMem  int64 // what the thresholds refer to: raw allocatable when annotated, else status.allocatable
 	capPods         int64
@@ -104,6 +104,10 @@ type c18Args struct {
 	NSInclude       []string
 	NSExclude       []string
 	PodSelectors    []string // app label values; "<nil>" = entry with nil selector
+	// stateful evictor filter (like the migration arbitrator's limits): besides the per-pod verdict the evictor admits a pod only
+	// while fewer than FilterLimit pods of the same node / namespace / workload (app label) were evicted in this round
+	FilterMode  string // static | per-node | per-namespace | per-workload
+	FilterLimit int
 }
 
 type c18EvictCall struct {
@@ -118,18 +122,44 @@ type c18RoundLog struct {
 // ---------------------------------------------------------------- fakes
 
 type c18Evictor struct {
-	flags map[string]c18PodIn
-	calls []c18EvictCall
+	flags   map[string]c18PodIn
+	calls   []c18EvictCall
+	mode    string
+	limit   int
+	evicted map[string]int // per limit key, successful evictions of this round
 }
 
+func c18LimitKey(mode, node, ns, app string) string {
+	switch mode {
+	case "per-node":
+		return "node/" + node
+	case "per-namespace":
+		return "ns/" + ns
+	case "per-workload":
+		return "app/" + app
+	}
+	return ""
+}
+
+// the verdict is taken at call time: it flips once the limit of the pod's node / namespace / workload is reached
 func (e *c18Evictor) Filter(pod *corev1.Pod) bool {
-	return e.flags[pod.Namespace+"/"+pod.Name].EvictorOK
+	if !e.flags[pod.Namespace+"/"+pod.Name].EvictorOK {
+		return false
+	}
+	if e.mode != "static" && e.evicted[c18LimitKey(e.mode, pod.Spec.NodeName, pod.Namespace, pod.Labels["app"])] >= e.limit {
+		return false
+	}
+	return true
 }
 func (e *c18Evictor) PreEvictionFilter(pod *corev1.Pod) bool { return true }
 func (e *c18Evictor) Evict(ctx context.Context, pod *corev1.Pod, opts framework.EvictOptions) bool {
 	k := pod.Namespace + "/" + pod.Name
 	e.calls = append(e.calls, c18EvictCall{Key: k, Node: pod.Spec.NodeName, Reason: opts.Reason})
-	return e.flags[k].EvictOK
+	if e.flags[k].EvictOK {
+		e.evicted[c18LimitKey(e.mode, pod.Spec.NodeName, pod.Namespace, pod.Labels["app"])]++
+		return true
+	}
+	return false
 }
 
 // only Evictor() and GetPodsAssignedToNodeFunc() are reached by Balance; anything else panics on the nil embedded Handle
@@ -445,8 +475,55 @@ func c18GenNodeRound(t *rapid.T, n *c18NodeSpec, round int, pool *c18PoolSpec, m
 	}
 	// with prod thresholds configured, some node-rounds carry mostly prod load so that prod-level overload occurs on calm nodes
 	prodHeavy := len(pool.ProdThr) > 0 && c18P(t, lbl+"ProdHeavy", 3)
+	// ... and "cold" nodes often carry no prod load at all, so that they can receive prod load
+	prodLight := len(pool.ProdThr) > 0 && n.Kind == "cold" && c18P(t, lbl+"ProdLight", 5)
 	wCPU := []int64{int64(c18U8(t, lbl+"SysWCPU"))}
 	wMem := []int64{int64(c18U8(t, lbl+"SysWMem"))}
+	// a "prodhot" node is, in 6 of 8 rounds, calm at node level but above a prod high threshold: all load comes from prod pods and
+	// the total of one prod-thresholded resource lies between the prod high and the node high threshold
+	prodHot := false
+	if n.Kind == "prodhot" && !pool.Deviation && c18P(t, lbl+"ProdHotRound", 6) {
+		for _, r := range []corev1.ResourceName{c18CPU, c18Mem} {
+			pt, ok := pool.ProdThr[r]
+			if !ok || prodHot {
+				continue
+			}
+			capacity := n.capCPU
+			other := c18Mem
+			if r == c18Mem {
+				capacity, other = n.capMem, c18CPU
+			}
+			nodeHighT := capacity
+			if nt, ok := pool.NodeThr[r]; ok {
+				nodeHighT = capacity * int64(nt[1]) / 200
+			}
+			prodHighT := capacity * int64(pt[1]) / 200
+			if prodHighT+16 > nodeHighT {
+				continue
+			}
+			prodHot = true
+			total[r] = c18Between(t, lbl+"ProdHotTotal", prodHighT+16, nodeHighT)
+			otherCap := n.capCPU
+			if other == c18Mem {
+				otherCap = n.capMem
+			}
+			otherLow := int64(0)
+			if nt, ok := pool.NodeThr[other]; ok {
+				otherLow = otherCap * int64(nt[0]) / 200
+			}
+			if po, ok := pool.ProdThr[other]; ok && otherCap*int64(po[0])/200 < otherLow {
+				otherLow = otherCap * int64(po[0]) / 200
+			}
+			total[other] = c18Between(t, lbl+"ProdHotOther", 0, otherLow)
+		}
+		if prodHot {
+			prodHeavy, prodLight = false, false
+			wCPU[0], wMem[0] = 0, 0
+			if nPods < 3 {
+				nPods += 3
+			}
+		}
+	}
 	for i := 0; i < nPods; i++ {
 		pl := fmt.Sprintf("%sP%d", lbl, i)
 		p := c18PodIn{
@@ -461,6 +538,12 @@ func c18GenNodeRound(t *rapid.T, n *c18NodeSpec, round int, pool *c18PoolSpec, m
 		if prodHeavy && c18P(t, pl+"ProdHeavy", 7) {
 			p.Prod = true
 		}
+		if prodLight {
+			p.Prod = false
+		}
+		if prodHot {
+			p.Prod = true
+		}
 		nr.Pods = append(nr.Pods, p)
 		if p.HasMetric {
 			wCPU = append(wCPU, int64(rapid.IntRange(0, 10).Draw(t, pl+"WCPU")))
@@ -470,7 +553,7 @@ func c18GenNodeRound(t *rapid.T, n *c18NodeSpec, round int, pool *c18PoolSpec, m
 			wMem = append(wMem, 0)
 		}
 	}
-	if c18P(t, lbl+"HasStale", 1) {
+	if !prodHot && c18P(t, lbl+"HasStale", 1) {
 		nr.Stale = append(nr.Stale, c18PodIn{NS: "default", Name: fmt.Sprintf("r%d-%s-gone", round, n.Name), HasMetric: true})
 		wCPU = append(wCPU, int64(rapid.IntRange(0, 5).Draw(t, lbl+"StaleWCPU")))
 		wMem = append(wMem, int64(rapid.IntRange(0, 5).Draw(t, lbl+"StaleWMem")))
@@ -747,23 +830,72 @@ const (
 	c18NotHigh    = 2
 )
 
-// lower bound implied by "has been above the threshold for the required consecutive rounds": counting only the rounds in which
-// the node was measured, (a) it was above the threshold in at least n of them and (b) n of them in a row were all above.
-func c18Streak(h []int8, n int) (enough bool, consecutive bool) {
-	cnt, run, best := 0, 0, 0
-	for _, s := range h {
-		switch s {
-		case c18High:
-			cnt++
-			run++
-			if run > best {
-				best = run
-			}
-		case c18NotHigh:
-			run = 0
+// Model of "has been above the threshold for the required consecutive rounds" for one node at one level (node-level and
+// prod-level runs are separate). Only measured rounds count. It is a lower bound in every direction that is not certain:
+//   - while ok, the run grows with every round possibly above the threshold and restarts with a round certainly not above it;
+//     with a run of N (= ConsecutiveAbnormalities; the code needs N+1) the node may be abnormal;
+//   - once possibly abnormal it stays so (hysteresis) until it certainly returns to ok: more than ConsecutiveNormalities rounds
+//     in a row certainly not above the threshold, or the balancer itself brought it back under the threshold and went on to the
+//     next candidate pod (the stop-by-usage path resets the detector). Then a new run of N is required.
+// Resets that the harness cannot be sure of (underused-node reset, timeout expiry, the extra normal mark after an eviction round)
+// only make koordinator more conservative than the model.
+type c18Run struct {
+	N, M       int
+	anom       bool // possibly abnormal
+	run        int  // consecutive possibly-above rounds while ok
+	normals    int  // consecutive certainly-normal rounds while possibly abnormal
+	total      int  // rounds possibly above, ever
+	everWindow bool // reached a run of N at least once
+	restarts   int  // certain returns to ok after having been possibly abnormal
+	hist       []int8
+}
+
+func (r *c18Run) observe(state int8) {
+	r.hist = append(r.hist, state)
+	switch state {
+	case c18High:
+		r.total++
+		if r.anom {
+			r.normals = 0
+			return
+		}
+		r.run++
+		if r.run >= r.N {
+			r.anom, r.everWindow, r.normals = true, true, 0
+		}
+	case c18NotHigh:
+		if !r.anom {
+			r.run = 0
+			return
+		}
+		r.normals++
+		if r.normals > r.M {
+			r.restart()
 		}
 	}
-	return cnt >= n, best >= n
+}
+
+func (r *c18Run) restart() {
+	if r.anom {
+		r.restarts++
+	}
+	r.anom, r.run, r.normals = false, 0, 0
+}
+
+// failing clause when an eviction happens while the node is certainly not abnormal
+func (r *c18Run) failure() (string, string) {
+	if r.anom {
+		return "", ""
+	}
+	detail := fmt.Sprintf("ConsecutiveAbnormalities=%d ConsecutiveNormalities=%d, current run of rounds above the threshold=%d, certain returns to ok so far=%d, history(1=above,2=not,0=unmeasured)=%v",
+		r.N, r.M, r.run, r.restarts, r.hist)
+	switch {
+	case r.total < r.N:
+		return "anomaly:fewer-abnormal-rounds-than-required", "the node was above the threshold in fewer rounds than required: " + detail
+	case !r.everWindow:
+		return "anomaly:abnormal-rounds-not-consecutive", "the node was never above the threshold in the required number of measured rounds in a row: " + detail
+	}
+	return "anomaly:no-new-run-after-return-to-normal", "the node had returned to normal (pods evicted until it was back under the threshold, or enough normal rounds) and has not been above the threshold for the required consecutive rounds since: " + detail
 }
 
 // order of the clauses of one level's justification (a later failing clause means the earlier ones held)
@@ -774,6 +906,7 @@ var c18ClauseRank = map[string]int{
 	"stop:headroom-used-up":                             3,
 	"anomaly:fewer-abnormal-rounds-than-required":       4,
 	"anomaly:abnormal-rounds-not-consecutive":           5,
+	"anomaly:no-new-run-after-return-to-normal":         6,
 }
 
 func c18Sub(a c18Vec, b c18Vec) c18Vec {
@@ -798,7 +931,7 @@ func c18Silence() {
 }
 
 func c18RunCase(t *rapid.T, c *vk.Case, viaConstructor bool) {
-	maxRounds := 6
+	maxRounds := 8
 	nNodes := rapid.IntRange(2, 6).Draw(t, "nodes")
 	twoPools := nNodes >= 4 && c18P(t, "twoPools", 2)
 	var pools []*c18PoolSpec
@@ -833,6 +966,9 @@ func c18RunCase(t *rapid.T, c *vk.Case, viaConstructor bool) {
 				n.Pool = pi
 			}
 		}
+		if n.Pool >= 0 && len(pools[n.Pool].ProdThr) > 0 && !pools[n.Pool].Deviation && n.Kind != "cold" && c18P(t, n.Name+"ProdHot", 3) {
+			n.Kind = "prodhot"
+		}
 		nodes[i] = n
 	}
 	a := c18Args{
@@ -857,7 +993,11 @@ func c18RunCase(t *rapid.T, c *vk.Case, viaConstructor bool) {
 	case 2:
 		a.PodSelectors = []string{"<nil>", "b"}
 	}
-	rounds := []int{1, 2, 3, 4, 5, 6, 6, 5}[c18U8(t, "rounds")]
+	a.FilterMode = []string{"static", "static", "static", "static", "static", "per-node", "per-namespace", "per-workload"}[c18U8(t, "filterMode")]
+	if a.FilterMode != "static" {
+		a.FilterLimit = []int{0, 1, 1, 1, 2, 2, 3, 4}[c18U8(t, "filterLimit")]
+	}
+	rounds := []int{1, 2, 3, 4, 5, 6, 7, 8}[c18U8(t, "rounds")]
 	if maxRounds < rounds {
 		rounds = maxRounds
 	}
@@ -902,7 +1042,7 @@ func c18RunCase(t *rapid.T, c *vk.Case, viaConstructor bool) {
 	if err := validation.ValidateLowLoadUtilizationArgs(nil, args); err != nil {
 		t.Fatalf("harness bug: generated arguments are rejected by the validation: %v", err)
 	}
-	ev := &c18Evictor{flags: map[string]c18PodIn{}}
+	ev := &c18Evictor{flags: map[string]c18PodIn{}, mode: a.FilterMode, limit: a.FilterLimit, evicted: map[string]int{}}
 	h := &c18Handle{ev: ev, podsByNode: map[string][]*corev1.Pod{}}
 	indexer := cache.NewIndexer(cache.MetaNamespaceKeyFunc, cache.Indexers{})
 	lister := koordslolisters.NewNodeMetricLister(indexer)
@@ -982,8 +1122,14 @@ func c18RunCase(t *rapid.T, c *vk.Case, viaConstructor bool) {
 	for i, p := range pools {
 		poolRes[i] = c18PoolResources(p)
 	}
-	histNode := map[string][]int8{}
-	histProd := map[string][]int8{}
+	runNode := map[string]*c18Run{}
+	runProd := map[string]*c18Run{}
+	for _, n := range nodes {
+		if n.Pool >= 0 && pools[n.Pool].Anom != nil {
+			runNode[n.Name] = &c18Run{N: int(pools[n.Pool].Anom.N), M: int(pools[n.Pool].Anom.M)}
+			runProd[n.Name] = &c18Run{N: int(pools[n.Pool].Anom.N), M: int(pools[n.Pool].Anom.M)}
+		}
+	}
 	var log []c18RoundLog
 	apiNodes := make([]*corev1.Node, len(nodes))
 	for i, n := range nodes {
@@ -999,6 +1145,7 @@ func c18RunCase(t *rapid.T, c *vk.Case, viaConstructor bool) {
 		sawEvict, sawNT, sawHeadroomStop, sawGated, sawAnomEvict, sawProdPhase, sawNodePhase bool
 		sawFilteredLeft, sawAmbiguous, sawNoHigh, sawNoLow, sawUnmeasured, sawUnschedLow     bool
 		sawMultiSource, sawFailedEvict, sawNoMetricEvict                                    bool
+		sawLimitReached, sawBalancerRestart, sawRestart, sawEvictAfterRestart               bool
 		totalEvictions                                                                       int
 		ntKey                                                                                []any
 	)
@@ -1011,6 +1158,9 @@ func c18RunCase(t *rapid.T, c *vk.Case, viaConstructor bool) {
 		}
 		for k := range ev.flags {
 			delete(ev.flags, k)
+		}
+		for k := range ev.evicted {
+			delete(ev.evicted, k)
 		}
 		ev.calls = nil
 		for _, obj := range indexer.List() {
@@ -1091,8 +1241,10 @@ func c18RunCase(t *rapid.T, c *vk.Case, viaConstructor bool) {
 					sawAmbiguous = true
 				}
 			}
-			histNode[n.Name] = append(histNode[n.Name], sn)
-			histProd[n.Name] = append(histProd[n.Name], sp)
+			if runNode[n.Name] != nil {
+				runNode[n.Name].observe(sn)
+				runProd[n.Name].observe(sp)
+			}
 		}
 		// upper bounds of the receivable load per pool: sum over every node that may count as underused of (high - usage)
 		headNode := make([]c18Vec, len(pools))
@@ -1154,6 +1306,7 @@ func c18RunCase(t *rapid.T, c *vk.Case, viaConstructor bool) {
 		}
 		evictedKeys := map[string]bool{}
 		sources := map[string]bool{}
+		admitted := map[string]int{}
 		for i, call := range ev.calls {
 			n, ok := podNode[call.Key]
 			pod := ev.flags[call.Key]
@@ -1170,6 +1323,20 @@ func c18RunCase(t *rapid.T, c *vk.Case, viaConstructor bool) {
 				if c.Violation(t, "filter:evicted-pod-fails-filter", "%s: the pod does not pass the configured filters (evictorOK=%v app=%q ns=%s selectors=%v include=%v exclude=%v); case=%s",
 					where, pod.EvictorOK, pod.App, pod.NS, a.PodSelectors, a.NSInclude, a.NSExclude, describe()) {
 					return
+				}
+			}
+			// the evictor's verdict at the moment of this call, recomputed from the successful evictions recorded so far
+			limitKey := c18LimitKey(a.FilterMode, n.Name, pod.NS, pod.App)
+			if a.FilterMode != "static" && admitted[limitKey] >= a.FilterLimit {
+				if c.Violation(t, "filter:pod-rejected-by-evictor-at-eviction-time", "%s: the evictor filter (%s, limit %d) no longer admits the pod: %d pods of %s were already evicted in this round; evictions so far this round=%v; case=%s",
+					where, a.FilterMode, a.FilterLimit, admitted[limitKey], limitKey, ev.calls[:i], describe()) {
+					return
+				}
+			}
+			if pod.EvictOK {
+				admitted[limitKey]++
+				if a.FilterMode != "static" && admitted[limitKey] >= a.FilterLimit {
+					sawLimitReached = true
 				}
 			}
 			if n.Pool < 0 {
@@ -1217,9 +1384,9 @@ func c18RunCase(t *rapid.T, c *vk.Case, viaConstructor bool) {
 			}
 			// failing clause (signature, detail) of the justification at one level; "" when justified
 			level := func(prod bool) (string, string) {
-				est, high, startU, hist, head, spent := estNode, st.NodeHigh, st.Usage, histNode[n.Name], headNode[pi], spentNode[pi]
+				est, high, startU, run, head, spent := estNode, st.NodeHigh, st.Usage, runNode[n.Name], headNode[pi], spentNode[pi]
 				if prod {
-					est, high, startU, hist, head, spent = estProd, st.ProdHigh, st.Prod, histProd[n.Name], headProd[pi], spentProd[pi]
+					est, high, startU, run, head, spent = estProd, st.ProdHigh, st.Prod, runProd[n.Name], headProd[pi], spentProd[pi]
 					if !pod.Prod {
 						return "source:node-not-overloaded", "pod is not a prod pod"
 					}
@@ -1237,12 +1404,11 @@ func c18RunCase(t *rapid.T, c *vk.Case, viaConstructor bool) {
 					return "stop:headroom-used-up", fmt.Sprintf("receivable load of the underused nodes %v minus already evicted %v leaves nothing for %s", head, spent, r)
 				}
 				if anomN > 1 {
-					enough, consecutive := c18Streak(hist, anomN)
-					if !enough {
-						return "anomaly:fewer-abnormal-rounds-than-required", fmt.Sprintf("ConsecutiveAbnormalities=%d but the node was above the threshold in fewer rounds: history(1=above,2=not,0=unmeasured)=%v", anomN, hist)
+					if sig, why := run.failure(); sig != "" {
+						return sig, why
 					}
-					if !consecutive {
-						return "anomaly:abnormal-rounds-not-consecutive", fmt.Sprintf("ConsecutiveAbnormalities=%d but the node was never above the threshold in %d measured rounds in a row: history(1=above,2=not,0=unmeasured)=%v", anomN, anomN, hist)
+					if run.restarts > 0 {
+						sawEvictAfterRestart = true
 					}
 				}
 				return "", ""
@@ -1311,38 +1477,54 @@ func c18RunCase(t *rapid.T, c *vk.Case, viaConstructor bool) {
 				continue
 			}
 			res := poolRes[n.Pool]
-			left, leftFiltered := 0, 0
+			left, leftProd, leftFiltered := 0, 0, 0
 			for _, p := range rl.Nodes[n.Name].Pods {
 				if evictedKeys[p.NS+"/"+p.Name] {
 					continue
 				}
 				if evictable(p) {
 					left++
+					if p.Prod {
+						leftProd++
+					}
 				} else {
 					leftFiltered++
 				}
 			}
+			gatedPool := pools[n.Pool].Anom != nil && pools[n.Pool].Anom.N > 1
 			if sources[n.Name] {
-				est := c18Sub(st.Usage, evictedAll[n.Name])
-				high := st.NodeHigh
+				nodePhase := c18DefinitelyAbove(st.Usage, st.NodeHigh, res)
+				prodPhase := !c18PossiblyAbove(st.Usage, st.NodeHigh, res) && c18DefinitelyAbove(st.Prod, st.ProdHigh, res)
+				est, high, run, candidates := c18Sub(st.Usage, evictedAll[n.Name]), st.NodeHigh, runNode[n.Name], left
 				if !c18PossiblyAbove(st.Usage, st.NodeHigh, res) {
-					est, high = c18Sub(st.Prod, evictedProd[n.Name]), st.ProdHigh
+					est, high, run, candidates = c18Sub(st.Prod, evictedProd[n.Name]), st.ProdHigh, runProd[n.Name], leftProd
 				}
 				moved := evictedAll[n.Name][c18Pods] > 0
-				if moved && !c18PossiblyAbove(est, high, res) && left > 0 {
+				backUnder := moved && !c18PossiblyAbove(est, high, res)
+				if backUnder && candidates > 0 {
 					sawNT = true
-					ntKey = append(ntKey, round, n.Name, evictedAll[n.Name][c18Pods], left)
+					ntKey = append(ntKey, round, n.Name, evictedAll[n.Name][c18Pods], candidates)
+					// Certain stop-by-usage: with a static filter and without NodeFit every remaining pod that passes the filters was a
+					// candidate behind the last evicted one, so the balancer looked at the node again, found it back under the
+					// threshold and reset the detector of this level: the run restarts.
+					if gatedPool && (nodePhase || prodPhase) && a.FilterMode == "static" && !a.NodeFit {
+						run.restart()
+						sawBalancerRestart = true
+					}
 				}
 				if moved && c18PossiblyAbove(est, high, res) && left > 0 {
-					sawHeadroomStop = true // still above with evictable pods left: the receivable load (or NodeFit) ended it
+					sawHeadroomStop = true // still above with evictable pods left: the receivable load (or NodeFit, or the evictor limit) ended it
 				}
 				if leftFiltered > 0 {
 					sawFilteredLeft = true
 				}
-			} else if pools[n.Pool].Anom != nil && pools[n.Pool].Anom.N > 1 && c18DefinitelyAbove(st.Usage, st.NodeHigh, res) && left > 0 {
-				if _, consecutive := c18Streak(histNode[n.Name], int(pools[n.Pool].Anom.N)); !consecutive {
-					sawGated = true
-				}
+			} else if gatedPool && c18DefinitelyAbove(st.Usage, st.NodeHigh, res) && left > 0 && !runNode[n.Name].anom {
+				sawGated = true
+			}
+		}
+		for _, n := range nodes {
+			if r := runNode[n.Name]; r != nil && r.N > 1 && (r.restarts > 0 || runProd[n.Name].restarts > 0) {
+				sawRestart = true
 			}
 		}
 	}
@@ -1367,6 +1549,11 @@ func c18RunCase(t *rapid.T, c *vk.Case, viaConstructor bool) {
 	c.ClassIf(sawMultiSource, "several-source-nodes-in-one-round")
 	c.ClassIf(sawFailedEvict, "evict-call-failed")
 	c.ClassIf(sawNoMetricEvict, "evicted-pod-without-metrics")
+	c.ClassIf(a.FilterMode != "static", "stateful-evictor-filter")
+	c.ClassIf(sawLimitReached, "evictor-limit-reached-during-round")
+	c.ClassIf(sawBalancerRestart, "run-restarted-by-balancer-stop-by-usage")
+	c.ClassIf(sawRestart, "abnormal-node-certainly-returned-to-normal")
+	c.ClassIf(sawEvictAfterRestart, "eviction-after-return-to-normal-with-new-run")
 	c.ClassIf(a.DryRun, "dry-run")
 	c.ClassIf(a.NodeFit, "node-fit")
 	c.ClassIf(a.NumberOfNodes > 0, "numberOfNodes>0")
